@@ -47,7 +47,7 @@ SPEC = {
     "group": G,
     "level": "proof",
     "harnesses": _hs(),
-    "caps": {"quick_harness_timeout": 400, "thorough_harness_timeout": 1500, "jobs": 8, "mem_gb": 16},
+    "caps": {"quick_harness_timeout": 400, "thorough_harness_timeout": 1500, "jobs": 6, "mem_gb": 24},
     "functions": ["tracing::{event!, span!, enabled!, info!, trace_span!} expansions, level_enabled!",
                   "tracing::__macro_support::MacroCallsite::{interest, register, is_enabled, set_interest}",
                   "tracing_core::callsite::{register, rebuild_interest_cache, inner::rebuild_callsite_interest, inner::rebuild_interest}",
